@@ -48,7 +48,7 @@ def legal_elem(e, player, n):
 
 def elem_family(player, n):
     lab_ok = "a" if player != PR else 0.5
-    labels = ["a", "", 0.5, 1, None, ("a",)]
+    labels = ["a", "", 0.5, 1, None, ("a",), "0.5", "1", [0.5]]     # numeric-looking strings: a coercing check (float(x)) would accept them
     succs = [-2, -1, 0, n - 1, n, n + 1, 1.5, "0", None]
     fam = []
     for s in succs:
@@ -85,9 +85,18 @@ def r123_check_game(ctx, chk, rule="C09.1"):
 
     def judge(desc, players, tl, rewards, finals):
         nonlocal n_eval, n_bad
-        env = {A("players"): players, A("transition_list"): tl, A("rewards"): rewards, A("final_states"): finals,
-               A("num_states"): len(players)}
-        out = Evaluator(sx, env).run()
+        # the attributes check_game reads are whatever the constructor made of its arguments
+        penv = {("v", "players"): players, ("v", "transition_list"): tl, ("v", "rewards"): rewards, ("v", "final_states"): finals,
+                ("v", "prune_states"): True}
+        evi = Evaluator(sxi, penv)
+        out = evi.run()
+        if out[0] == "accept":
+            env = {}
+            for e in sxi.final.effects:
+                if e[1] == "store" and e[2] == ("v", "self") and evi.truth(e[0], {}):
+                    loc = {("attr", ("v", "self"), k[2]): v for k, v in env.items()}
+                    env[A(e[3])] = evi.ev(e[4], loc)
+            out = Evaluator(sx, env).run()
         n_eval += 1
         legal = game_legal(players, tl, rewards, finals)
         if len(samples) < 4:
